@@ -40,6 +40,8 @@ theorem invB_loc_atm2 {s : State} {t : Tid} {e : Event} {x' : Thr} (hi : InvB s)
   | deqLdGone r obs hl hr hw hq =>
     by_cases hz : s.queue.isEmpty = true <;> simp only [hz, if_true, if_false] <;> locB_case hl
   | deqSpinStay r obs hl hr hw => rw [setThr_self]; exact hi
+  | dbgW r obs hl hq hm ho => locB_case hl
+  | dbgRc r obs hl hq ho => locB_case hl
   | _ => first | (simp [Event.isAtomic] at he; done) | (simp [Event.isRecLd] at he2; done) | (simp [Event.isSettle] at he3; done)
 
 end NsyncVerif.CvFix
